@@ -77,6 +77,22 @@ def call(px, st, name, t, args, fid, fn):
         return [(st, args[0])]
     if n.endswith('<I as std::iter::IntoIterator>::into_iter'):
         return [(st, args[0])]
+    if n.endswith('std::convert::AsRef::as_ref') and len(args) == 1:
+        gas = ga_list(t)
+        selfty = re.sub(r"'[a-z_{}]+ ", '', gas[0]) if gas else ''
+        if selfty in ('[u8]', 'str'):
+            return [(st, args[0])]                       # <[u8] as AsRef<[u8]>>::as_ref(&self) -> the same slice
+        if selfty in ('&[u8]', '&str', '&&[u8]', '&&str'):
+            return [(st, px.deref_value(st, args[0]))]   # blanket impl for references: as_ref(&&[u8]) -> &[u8]
+        if len(gas) > 1 and gas[1] in ('[u8]', 'str') and re.match(r'^[A-Z]\w*(/#\d+)?$', selfty or ''):
+            # inside a generic function explored inline the receiver type is a type parameter, but the VALUE is known: when it is a reference to a byte
+            # string (a token of the iterator, a sub-slice, a literal), `as_ref` is the blanket impl for references and yields that same string
+            try:
+                inner = px.deref_value(st, args[0])
+            except Exception:
+                inner = None
+            if inner is not None and inner[0] == 'ref' and inner[1][0] in ('T', 'S', 'STR', 'MEM', 'PK'):
+                return [(st, inner)]
     if n.endswith('std::convert::AsRef::as_ref') or n.endswith('std::borrow::Borrow::borrow'):
         return [(st, pure(n.split('::')[-1], px.snap_args(st, args)))]
     if n.endswith('as std::ops::Deref>::deref'):
@@ -422,6 +438,13 @@ def call(px, st, name, t, args, fid, fn):
         if N is None:
             m = re.search(r'TinyAsciiStr<(\d+)>', t['dest']['ty'])
             N = int(m.group(1)) if m else None
+        if N is None:
+            # called inside a const-generic helper explored inline (`fn tiny_or<const N: usize>(..)`): N is the integer generic argument of that call
+            for ga in reversed(getattr(px, 'ga_stack', [])):
+                ints = re.findall(r'(?<![\w<])(\d+)_usize', ga)
+                if len(ints) == 1:
+                    N = int(ints[0])
+                    break
         if N is not None:
             return [(st, ('tinyres', px.subject_of(st, args[0]), N))]
     if n.endswith('TinyAsciiStr::<N>::len') or n.endswith('TinyAsciiStr::<N>::is_empty'):
@@ -685,7 +708,7 @@ TOTAL_EXTRA_RE = re.compile(r'''(
         from_[lbn]e_bytes|to_[lbn]e_bytes|count_ones|count_zeros|leading_zeros|trailing_zeros|swap_bytes|to_be|to_le|from_be|from_le|min|max|is_power_of_two|rotate_left|rotate_right|from_str_radix|MAX|MIN)$|
     char::methods::<impl\ char>::(is_ascii\w*|to_ascii_\w+|eq_ignore_ascii_case|is_alphabetic|is_alphanumeric|is_numeric|is_lowercase|is_uppercase|is_whitespace|is_control|len_utf8|
         to_lowercase|to_uppercase|encode_utf8|from_u32)$|char::convert::<impl\ std::convert::(From|TryFrom)<\w+>\ for\ \w+>::(from|try_from)$|
-    mem::(swap|replace|take|drop|size_of|size_of_val|discriminant)$|hint::(must_use|black_box)$|cmp::(min|max|min_by|max_by|min_by_key|max_by_key)$|cmp::Ord::(cmp|min|max|clamp)$|cmp::Ordering::(then|then_with|reverse|is_eq|is_ne|is_lt|is_le|is_gt|is_ge)$|
+    mem::(swap|replace|take|drop|size_of|size_of_val|discriminant)$|hint::(must_use|black_box)$|ops::(function::)?Fn(Once|Mut)?::call(_once|_mut)?$|cmp::(min|max|min_by|max_by|min_by_key|max_by_key)$|cmp::Ord::(cmp|min|max|clamp)$|cmp::Ordering::(then|then_with|reverse|is_eq|is_ne|is_lt|is_le|is_gt|is_ge)$|
     cmp::(PartialOrd|PartialEq|Ord)::(lt|le|gt|ge|eq|ne|partial_cmp|cmp)$|as\ std::cmp::(PartialOrd|PartialEq|Ord)(<[^>]*>)?>::(lt|le|gt|ge|eq|ne|partial_cmp|cmp)$|
     option::Option::<T>::(is_some|is_none|is_some_and|is_none_or|as_ref|as_mut|as_deref|as_deref_mut|map|map_or|map_or_else|ok_or|ok_or_else|and|and_then|or|or_else|xor|filter|take|replace|insert|
         get_or_insert|get_or_insert_with|zip|unzip|unwrap_or|unwrap_or_else|unwrap_or_default|iter|iter_mut|cloned|copied|flatten|transpose|inspect|take_if)$|
